@@ -71,7 +71,7 @@ saved, pending = [], []
 for sid, (prop, n, needs, det, note) in SEEDS.items():
     src = f"/tmp/seed3/{prop}/out"
     d = f"/verif/seeded/{sid}"
-    if os.path.exists(f"{d}/meta.json") and not os.path.exists(src): saved.append(sid); continue
+    if os.path.exists(f"{d}/meta.json"): saved.append(sid); continue   # saved earlier (a ported patch.diff is not overwritten)
     ci = confirm_info(prop, n)
     if not ci or not os.path.exists(f"{src}/patch{n}.diff"):
         pending.append(sid); continue
